@@ -13,67 +13,77 @@ import (
 var vWriterOps = []string{"ProcessMessage-PING", "ProcessMessage-NICK", "ProcessMessage-PRIVMSG", "UpdateLastClientMessageID", "CreateSession", "SetLastProcessed", "MaybeDeleteSession", "ThrottleUntil"}
 var vReaderOps = []string{"Marshal", "ExpireSessions", "ThrottleUntil", "GetSessions", "GetSession", "GetNick", "LastPostMessage", "NumSessions", "NumChannels", "SessionLimit", "ChannelLimit", "TrustedBridge", "Banned", "GetAuth", "OriginWhitelisted", "captchaConfigured"}
 
-func vRunWriterOp(t *vTpl, op string) {
+// vWriterOp draws the operation's inputs now and returns the operation itself,
+// so that nothing but the operation runs on the concurrent goroutines of a replay.
+func vWriterOp(t *vTpl, op string) func() {
 	i := t.i
 	s := t.sess[0]
 	rm := &robust.Message{Id: robust.Id{Id: 0x5000}, Session: s.Id, Type: robust.IRCFromClient, Data: "x", ClientMessageId: nondetU64(), UnixNano: nondetI64In(1, 1<<60)}
+	p1, p2, u := vStr(t.L), vStr(t.L), nondetU64()
 	switch op {
 	case "ProcessMessage-PING":
-		i.ProcessMessage(rm, &irc.Message{Command: "PING", Params: []string{vStr(t.L)}})
+		return func() { i.ProcessMessage(rm, &irc.Message{Command: "PING", Params: []string{p1}}) }
 	case "ProcessMessage-NICK":
-		i.ProcessMessage(rm, &irc.Message{Command: "NICK", Params: []string{vStr(t.L)}})
+		return func() { i.ProcessMessage(rm, &irc.Message{Command: "NICK", Params: []string{p1}}) }
 	case "ProcessMessage-PRIVMSG":
-		i.ProcessMessage(rm, &irc.Message{Command: "PRIVMSG", Params: []string{vStr(t.L), vStr(t.L)}})
+		return func() { i.ProcessMessage(rm, &irc.Message{Command: "PRIVMSG", Params: []string{p1, p2}}) }
 	case "UpdateLastClientMessageID":
-		i.UpdateLastClientMessageID(rm)
+		return func() { i.UpdateLastClientMessageID(rm) }
 	case "CreateSession":
-		i.CreateSession(robust.Id{Id: 0x6000}, vStr(t.L), rm.Timestamp())
+		return func() { i.CreateSession(robust.Id{Id: 0x6000}, p1, rm.Timestamp()) }
 	case "SetLastProcessed":
-		i.SetLastProcessed(robust.Id{Id: nondetU64()})
+		return func() { i.SetLastProcessed(robust.Id{Id: u}) }
 	case "MaybeDeleteSession":
-		i.MaybeDeleteSession(s.Id)
+		return func() { i.MaybeDeleteSession(s.Id) }
 	case "ThrottleUntil":
-		i.ThrottleUntil(s.Id)
+		return func() { i.ThrottleUntil(s.Id) }
 	}
+	return func() {}
 }
 
-func vRunReaderOp(t *vTpl, op string) {
+func vReaderOp(t *vTpl, op string) func() {
 	i := t.i
 	id := t.sess[0].Id
+	if nondetBool() {
+		// an id this node has no session for (deleted, or not yet seen): the lookups then consult lastProcessed
+		id = robust.Id{Id: nondetU64()}
+	}
+	p := vStr(t.L)
 	switch op {
 	case "Marshal":
-		i.Marshal(1)
+		return func() { i.Marshal(1) }
 	case "ExpireSessions":
-		i.ExpireSessions()
+		return func() { i.ExpireSessions() }
 	case "ThrottleUntil":
-		i.ThrottleUntil(id)
+		return func() { i.ThrottleUntil(id) }
 	case "GetSessions":
-		i.GetSessions()
+		return func() { i.GetSessions() }
 	case "GetSession":
-		i.GetSession(id)
+		return func() { i.GetSession(id) }
 	case "GetNick":
-		i.GetNick(id)
+		return func() { i.GetNick(id) }
 	case "LastPostMessage":
-		i.LastPostMessage(id)
+		return func() { i.LastPostMessage(id) }
 	case "NumSessions":
-		i.NumSessions()
+		return func() { i.NumSessions() }
 	case "NumChannels":
-		i.NumChannels()
+		return func() { i.NumChannels() }
 	case "SessionLimit":
-		i.SessionLimit()
+		return func() { i.SessionLimit() }
 	case "ChannelLimit":
-		i.ChannelLimit()
+		return func() { i.ChannelLimit() }
 	case "TrustedBridge":
-		i.TrustedBridge(vStr(t.L))
+		return func() { i.TrustedBridge(p) }
 	case "Banned":
-		i.Banned(vStr(t.L))
+		return func() { i.Banned(p) }
 	case "GetAuth":
-		i.GetAuth(id)
+		return func() { i.GetAuth(id) }
 	case "OriginWhitelisted":
-		i.OriginWhitelisted(vStr(t.L))
+		return func() { i.OriginWhitelisted(p) }
 	case "captchaConfigured":
-		i.captchaConfigured()
+		return func() { i.captchaConfigured() }
 	}
+	return func() {}
 }
 
 func verifHarness_C20_ircserver() {
@@ -88,13 +98,14 @@ func verifHarness_C20_ircserver() {
 	t := vBuild(vRoleClient)
 	// throttling only happens with a configured cool-off; keep the state small
 	verifCaseLabel(vWriterOps[a] + " || " + vReaderOps[b])
+	opA, opB := vWriterOp(t, vWriterOps[a]), vReaderOp(t, vReaderOps[b])
 	verifConcurrently(func() {
 		verifOp("A:" + vWriterOps[a])
-		vRunWriterOp(t, vWriterOps[a])
+		opA()
 		verifOp("")
 	}, func() {
 		verifOp("B:" + vReaderOps[b])
-		vRunReaderOp(t, vReaderOps[b])
+		opB()
 		verifOp("")
 	})
 	verifAssert(verifLocksetsConsistent(), "locksets:"+vWriterOps[a]+"||"+vReaderOps[b])
